@@ -2,9 +2,14 @@
 from .. import common as C
 from .. import reqcheck as RC
 from .. import reqsuite as S
+from .. import reqgen as Q
 from .. import ubxgen as G
 
 CHECKER = 'coqc props/C06.v (proofs/RequestGood.v) + correspondence (returned frame, number of sends) + expected-answer oracle on the implementation'
+
+
+# known finding F11: the gpsd backend has no _flush_input(); see known_findings.json and DESIGN.md 12
+GPSD_FINDING = 'C06|gpsd-backend-unread-input-not-discarded'
 
 
 def oracle(sc, rq, r):
@@ -19,12 +24,41 @@ def oracle(sc, rq, r):
     if not good or good[0][2]:
         return None            # no good attempt planned, or it arrives too late: nothing to demand
     k = good[0][1]
+    gpsd = sc.get('backend') == 'gpsd'
     # the answer may legitimately come earlier if an earlier fault happens to be accepted (e.g. NAK for set): only demand success
     if r['ret'] in ('ret=None', 'hang') or r['ret'].startswith('exn='):
-        return f'attempt {k} was answered correctly and in time, but the request returned {r["ret"][:40]}'
+        why = f'attempt {k} was answered correctly and in time, but the request returned {r["ret"][:40]}'
+        return (why, GPSD_FINDING) if gpsd else why
     if len(r['tx']) > k:
-        return f'attempt {k} was answered correctly and in time, but {len(r["tx"])} transmissions were made'
+        why = f'attempt {k} was answered correctly and in time, but {len(r["tx"])} transmissions were made'
+        return (why, GPSD_FINDING) if gpsd else why
     return None
+
+
+def gpsd_leftover_case(res):
+    """The listed finding, reproduced deterministically on the real gpsd backend over scripted sockets: attempt 1 is answered by
+    the first 10 bytes of a frame that arrive after its waiting period (so they are still unread), attempt 2 is answered
+    correctly and in time. With an input flush (serial backend) the answer is returned after 2 sends; on gpsd it is swallowed."""
+    from .. import reflect as R
+    rng = C.rng_for(0, 'C06-gpsd-finding')
+    rq = next(r for r in S.all_requests(rng, R.message_table(), R.key_tables()) if r.label == 'UbxMonVerPoll')
+    answer = G.frame(0x0A, 0x04, bytes(range(40)))
+    stale = G.frame(0x01, 0x07, bytes(36))[:10]
+    sc = {'retries': 1, 'delay': 100, 'reqs': [rq], 'plan': [('late_truncated', 1), ('good', 2, False)],
+          'plans': [[('late_truncated', 1), ('good', 2, False)]],
+          'script': {'pending': [], 'attempts': [(True, [(None, 120), (stale, 1)]), (True, [(answer, 1)])], 'idle': 13}}
+    for backend in ('gpsd', 'tty'):
+        sc_b = dict(sc, backend=backend, bauds=('/dev/ttyS3', None) if backend == 'gpsd' else (115200, None))
+        if backend == 'tty':
+            sc_b = dict(sc_b, script=Q.bytewise(sc['script']))
+        out = S.run_scenario(sc_b)
+        r = S.parse_result(out)
+        ok = r['ret'].startswith('ret=UbxMonVer') and len(r['tx']) == 2
+        res.notes[f'late_truncated_frame_then_answer_on_{backend}'] = 'answer returned after 2 sends' if ok else f'{r["ret"][:30]} after {len(r["tx"])} sends'
+        if not ok:
+            res.violation('C06: a truncated frame arriving after the end of attempt 1 hid the correct and timely answer to attempt 2',
+                          {'property': 'C06', 'input': S.describe(sc_b), 'implementation_says': out[:1500]},
+                          GPSD_FINDING if backend == 'gpsd' else 'C06|late-truncated|' + backend)
 
 
 def check(tier, seed):
@@ -37,10 +71,11 @@ def check(tier, seed):
         C.audit_sources()
         C.props_obligations(res, 'C06', wd)
         cases = RC.run_suite(res, 'C06', tier, seed, 400, 15000, n_req=[1, 1, 1, 2, 3], force='good', oracle=oracle, late_every=10, history_every=6)
+        gpsd_leftover_case(res)
         res.compare(cases)
         res.notes['answered'] = sum(1 for c in cases if 'ret=Ubx' in c.impl)
         res.oblige('correspondence request loop: answer and sends (Tie A)', not res.disagreements)
-        res.oblige('expected-answer oracle on the implementation', not res.violations)
+        res.oblige('expected-answer oracle on the implementation (apart from listed findings)', not res.open_violations())
     return C.finish(res, CHECKER, ['"in time": the receive call that returns the last answer byte starts before the phase deadline',
                                    'inert traffic = grammar segments that deliver nothing for the request\'s filter (no checksum-failed frames: each error '
                                    'marker costs one loop iteration; covered by the correspondence, not by the theorem)'])
